@@ -207,7 +207,7 @@ type AnyObjectLiteralExpression struct {
 
 func (self AnyObjectLiteralExpression) Kind() ExpressionKind { return AnyObjectLiteralExpressionKind }
 func (self AnyObjectLiteralExpression) Span() errors.Span    { return self.Range }
-func (self AnyObjectLiteralExpression) String() string       { return "{ ? }" }
+func (self AnyObjectLiteralExpression) String() string       { return "new { ? }" }
 
 //
 // Object literal
